@@ -116,6 +116,9 @@ func (c Config) HasSetup(s string) bool {
 type Record struct {
 	HandlerRan bool
 	HandlerErr error
+	// CallsBeforeHandler: how many backend calls the request had made when the module handler
+	// started (middlewares in front of it make calls too)
+	CallsBeforeHandler int
 
 	ProbeRan     bool
 	ProbeName    string
@@ -397,7 +400,7 @@ func NewWorld(cfg Config) (w *World, err error) {
 		w.smtpBase = len(srv.Snapshot())
 		ab.Config.Core.Mailer = defaults.NewSMTPMailer(srv.Addr(), nil)
 	}
-	ab.Config.Core.ErrorHandler = errWrap{write500: cfg.Err500, log: ab.Config.Core.Logger}
+	ab.Config.Core.ErrorHandler = errWrap{write500: cfg.Err500, log: ab.Config.Core.Logger, b: w.B}
 	br := ab.Config.Core.BodyReader.(*defaults.HTTPBodyReader)
 	if len(cfg.RegWhitelist) > 0 {
 		br.Whitelist["register"] = append(br.Whitelist["register"], cfg.RegWhitelist...)
@@ -471,12 +474,17 @@ func NewWorld(cfg Config) (w *World, err error) {
 type errWrap struct {
 	write500 bool
 	log      authboss.Logger
+	b        *Backend
 }
 
 func (e errWrap) Wrap(h func(w http.ResponseWriter, r *http.Request) error) http.Handler {
 	rec := func(w http.ResponseWriter, r *http.Request) error {
+		rc, _ := r.Context().Value(ctxProbe).(*Record)
+		if rc != nil && e.b != nil {
+			rc.CallsBeforeHandler = len(e.b.Snapshot())
+		}
 		err := h(w, r)
-		if rc, ok := r.Context().Value(ctxProbe).(*Record); ok && rc != nil {
+		if rc != nil {
 			rc.HandlerRan = true
 			rc.HandlerErr = err
 		}
